@@ -245,7 +245,7 @@ def _neg_mul(a, b):
 def rule_tri(prog, rep, R="C07.tri"):
     rep.rule(R, "TriangularAffine: A = diag(softplus-reparameterised diagonal) + strictly lower "
                         "(lower=True) / strictly upper (lower=False) triangle of the given matrix; the solver "
-                        "in both inverse methods uses the same polarity", minimum=4)
+                        "in both inverse methods uses the same polarity; loc is broadcast to (dim,)", minimum=5)
     c = prog.cls("flowjax.bijections.affine.TriangularAffine")
     site = method_site(prog, c, "__init__")
     LOC, ARR, LOWER = ("sym", "LOC"), ("sym", "ARR"), ("sym", "LOWER")
@@ -262,6 +262,12 @@ def rule_tri(prog, rep, R="C07.tri"):
     compare(rep, R, site, "TriangularAffine.triangular", lambda_normal(prog, f.get("triangular", ("unknown", "missing"))),
             lambda_normal(prog, want["triangular"]), "triangular")
     compare(rep, R, site, "TriangularAffine.lower", f.get("lower", ("unknown", "missing")), want["lower"], "lower")
+    # loc is broadcast to (dim,): the stored shift has the declared shape, and a loc that cannot be is rejected
+    want_loc = eval_ref_method(prog, c, "def __init__(self, loc, arr, *, lower=True):\n"
+                                        "    loc, arr = (arraylike_to_array(a, dtype=float) for a in (loc, arr))\n"
+                                        "    self.loc = jnp.broadcast_to(loc, (arr.shape[0],))\n", [LOC, ARR], {"lower": LOWER},
+                               want_fields=True)[0]["loc"]
+    compare(rep, R, site, "TriangularAffine.loc", f.get("loc", ("unknown", "missing")), want_loc, "loc")
     for m in ("inverse", "inverse_and_log_det"):
         t = method_term(prog, c, m)
         calls = [s for s in walk(t) if s[0] == "call" and s[1] == ("ext", "jax.scipy.linalg.solve_triangular")]
